@@ -4,6 +4,9 @@ package c02
 
 import (
 	"crypto"
+	"encoding/binary"
+	"strings"
+	"sync/atomic"
 	"testing"
 
 	"github.com/cloudflare/circl/internal/zzverif/lib"
@@ -441,4 +444,45 @@ func schemeCase(all []sign.Scheme, s sign.Scheme, k, m int) {
 	}
 	_ = ed25519.SignatureSize
 	_ = ed448.SignatureSize
+}
+
+// TestVerifHonestSweep: "honest signatures verify" for every message, not for
+// the few dozen of the case list: every scheme signs a long run of counter
+// messages under one key (deterministic signing) and verifies each.  Branches
+// of signing that are taken for one (key, message) pair in 10^3..10^4 (a
+// rejection, a boundary value of a rounding step) are then met with the
+// counts of the two tiers: 24000 signatures per lattice scheme in the quick
+// tier, 120000 in the thorough one; 600 / 6000 for the others.
+func TestVerifHonestSweep(t *testing.T) {
+	const mon = "TestVerifHonestSweep"
+	lib.Mandatory("honest-sweep:signatures")
+	for _, s := range schemes.All() {
+		s := s
+		name := s.Name()
+		n := lib.Scale(600, 6000)
+		if strings.Contains(name, "DSA") || strings.Contains(name, "Dilithium") {
+			n = lib.Scale(24000, 120000)
+		}
+		pk, sk := s.DeriveKey(make([]byte, s.SeedSize()))
+		var reported int32
+		lib.Par(n, func(i int) {
+			msg := make([]byte, 8)
+			binary.LittleEndian.PutUint64(msg, uint64(i)+lib.Seed()<<32)
+			var sig []byte
+			ok := false
+			if pn := lib.Try("honest-sweep:"+name, msg, func() {
+				sig = s.Sign(sk, msg, nil)
+				ok = s.Verify(pk, msg, sig, nil)
+			}); pn != nil {
+				ok = false
+			}
+			lib.Count("honest-sweep:signatures")
+			if i%256 == 0 {
+				lib.Case([]byte("honest-sweep"), []byte(name), msg)
+			}
+			if (!ok || len(sig) != s.SignatureSize()) && atomic.AddInt32(&reported, 1) <= 2 {
+				lib.Violation("C02:honest-rejected:"+name+":sweep", mon, lib.D("seed", make([]byte, s.SeedSize()), "msg", msg, "sig_len", len(sig), "verifies", ok))
+			}
+		})
+	}
 }
